@@ -17,10 +17,14 @@ import (
 	"time"
 
 	"github.com/aliyun/alibaba-cloud-sdk-go/services/ecs"
+	"github.com/aliyun/alibaba-cloud-sdk-go/services/vpc"
+	"k8s.io/apimachinery/pkg/util/wait"
 
 	"github.com/AliyunContainerService/terway/pkg/aliyun/client"
 	"github.com/AliyunContainerService/terway/pkg/aliyun/metadata"
+	"github.com/AliyunContainerService/terway/pkg/backoff"
 	factoryaliyun "github.com/AliyunContainerService/terway/pkg/factory/aliyun"
+	vswpool "github.com/AliyunContainerService/terway/pkg/vswitch"
 	"github.com/AliyunContainerService/terway/types/daemon"
 )
 
@@ -34,13 +38,14 @@ import (
 // Output: ret=<addresses returned> err=<0|1> cloud+=<addresses the cloud added>.
 
 type faCloud struct {
-	mu    sync.Mutex
-	ips   map[string][]string // mac -> addresses the cloud has assigned (both families)
-	shown map[string]bool     // mac -> metadata lists what the cloud has
-	fail  map[string]bool     // eni -> the next assign is refused
-	types map[string]string   // eni -> S | T | R as DescribeNetworkInterfaces reports it (fa.attached)
-	meta  map[string]map[string]string // mac -> leaf -> what the metadata server answers (nc.meta)
-	next  int
+	mu      sync.Mutex
+	ips     map[string][]string          // mac -> addresses the cloud has assigned (both families)
+	shown   map[string]bool              // mac -> metadata lists what the cloud has
+	fail    map[string]bool              // eni -> the next assign is refused
+	types   map[string]string            // eni -> S | T | R as DescribeNetworkInterfaces reports it (fa.attached)
+	meta    map[string]map[string]string // mac -> leaf -> what the metadata server answers (nc.meta)
+	creates map[string][]string          // case tag (sent as ResourceGroupId) -> vSwitch of every CreateNetworkInterface request (fa.exhaust)
+	next    int
 }
 
 var (
@@ -133,6 +138,13 @@ func (faRT) RoundTrip(req *http.Request) (*http.Response, error) {
 	status, body := 200, ""
 	faState.mu.Lock()
 	switch action := q.Get("Action"); {
+	case action == "DescribeVSwitches":
+		// fa.exhaust: every vSwitch says it has addresses left …
+		body = `{"RequestId":"R-1","TotalCount":1,"PageNumber":1,"PageSize":10,"VSwitches":{"VSwitch":[{"VSwitchId":"` + q.Get("VSwitchId") + `","ZoneId":"z1","AvailableIpAddressCount":10,"CidrBlock":"10.0.0.0/24","Ipv6CidrBlock":"","Status":"Available"}]}}`
+	case action == "CreateNetworkInterface":
+		// … and every create in it is refused as exhausted
+		faState.creates[q.Get("ResourceGroupId")] = append(faState.creates[q.Get("ResourceGroupId")], q.Get("VSwitchId"))
+		status, body = 400, `{"Code":"InvalidVSwitchId.IpNotEnough","Message":"injected","RequestId":"R-1","HostId":"h"}`
 	case action == "DescribeNetworkInterfaces":
 		// the interfaces asked for by id (NetworkInterfaceId.N), with the type / traffic mode the case gave them
 		var sets []string
@@ -211,6 +223,9 @@ func faExec(c *Ctx, ops []string) []string {
 				if len(f) > 0 && f[0] == "fa.attached" {
 					return faAttached(c, op)
 				}
+				if len(f) > 0 && f[0] == "fa.exhaust" {
+					return faExhaust(c, op)
+				}
 				if len(f) != 5 || f[0] != "fa.assign" || (f[1] != "4" && f[1] != "6") {
 					return "bad-op"
 				}
@@ -262,6 +277,98 @@ func faExec(c *Ctx, ops []string) []string {
 	}
 	wg.Wait()
 	return outs
+}
+
+// faExhaust: `fa.exhaust <n 1..3>` - the real factory's CreateNetworkInterface over the real vSwitch pool (cache ttl 10 m) and the
+// real OpenAPI wrappers: n candidate vSwitches which all say they have addresses left while every create in them is refused as
+// exhausted (InvalidVSwitchId.IpNotEnough).  Two orders in a row.  Output: the vSwitches the create requests of each order named.
+func faExhaust(c *Ctx, op string) string {
+	f := strings.Fields(op)
+	if len(f) != 2 {
+		return "bad-op"
+	}
+	n, err := strconv.Atoi(f[1])
+	if err != nil || n < 1 || n > 3 {
+		return "bad-op"
+	}
+	faBackoffOnce.Do(func() {
+		backoff.OverrideBackoff(map[string]wait.Backoff{backoff.ENICreate: {Duration: 2 * time.Millisecond, Factor: 1, Steps: 5}})
+	})
+	e, err := ecs.NewClientWithAccessKey("cn-hangzhou", "ak", "sk")
+	if err != nil {
+		return "err-harness"
+	}
+	v, err := vpc.NewClientWithAccessKey("cn-hangzhou", "ak", "sk")
+	if err != nil {
+		return "err-harness"
+	}
+	e.SetTransport(faRT{})
+	v.SetTransport(faRT{})
+	e.Domain, v.Domain = "ecs.invalid", "vpc.invalid"
+	api, err := client.New(&c16ClientSet{e: e, v: v}, client.FromMap(map[string]int{"": 1 << 30}))
+	if err != nil {
+		return "err-harness"
+	}
+	pool, err := vswpool.NewSwitchPool(100, "10m")
+	if err != nil {
+		return "err-harness"
+	}
+	tag := fmt.Sprintf("rg-%d-%d", c.Seed, time.Now().UnixNano())
+	var ids []string
+	for i := 0; i < n; i++ {
+		ids = append(ids, fmt.Sprintf("vsw-%s-%d", tag, i))
+	}
+	faState.mu.Lock()
+	if faState.creates == nil {
+		faState.creates = map[string][]string{}
+	}
+	faState.mu.Unlock()
+	defer func() {
+		faState.mu.Lock()
+		delete(faState.creates, tag)
+		faState.mu.Unlock()
+	}()
+	ctx, cancel := context.WithTimeout(context.Background(), 5*time.Second)
+	defer cancel()
+	fac := factoryaliyun.NewAliyun(ctx, api, nil, pool, &daemon.ENIConfig{EnableIPv4: true, ZoneID: "z1", VSwitchOptions: ids, ResourceGroupID: tag, SecurityGroupIDs: []string{"sg-1"}, InstanceID: "i-1"})
+	var outs []string
+	seen := 0
+	blocked := map[string]bool{}
+	for order := 1; order <= 2; order++ {
+		_, _, _, err := fac.CreateNetworkInterface(1, 0, "secondary")
+		if err == nil {
+			return "created"
+		}
+		faState.mu.Lock()
+		all := append([]string(nil), faState.creates[tag]...)
+		faState.mu.Unlock()
+		var idx []string
+		for _, id := range all[seen:] {
+			i := strings.TrimPrefix(id, "vsw-"+tag+"-")
+			idx = append(idx, i)
+			// property-level (C17): a vSwitch the cloud reported exhausted is not chosen again while its cache entry lives
+			if blocked[id] {
+				c.Violate("C17/factory/exhausted-chosen-again", fmt.Sprintf("vSwitch %s was reported exhausted by the cloud and is named by another create request within the cache ttl (order %d)", i, order), op)
+			}
+			blocked[id] = true
+		}
+		seen = len(all)
+		if len(idx) == 0 {
+			idx = []string{"-"}
+		}
+		outs = append(outs, strings.Join(idx, ","))
+	}
+	return strings.Join(outs, " ")
+}
+
+var faBackoffOnce sync.Once
+
+func faExhaustRun(c *Ctx, n int) {
+	for i := 0; i < n; i++ {
+		op := fmt.Sprintf("fa.exhaust %d", 1+c.R.Intn(3))
+		c.One(op, faExhaust(c, op), true)
+		c.Count("factory-create-exhausted")
+	}
 }
 
 // faGetter stands for the metadata listing of the interfaces attached at start-up
